@@ -1,13 +1,13 @@
 SPECIFICATION Spec
 CONSTANTS
-  Fault = "none"
-  Cfgs <- T5B_Cfgs
+  Fault = "no_transient_check"
+  Cfgs <- FM_Conv
   Soc0s <- SocAll
   Dts <- Dt2
   Engs <- OnOnly
-  ClsOn <- T5_BelCls
-  ClsOff <- ClsZero
-  Depth = 5
+  ClsOn <- QC_On
+  ClsOff <- QC_Off
+  Depth = 2
 INVARIANT L1
 INVARIANT L1s
 INVARIANT L2
